@@ -19,12 +19,13 @@ type respScript struct {
 	Bursts     []int  // when set: Raw is written in pieces of these lengths (rest at the end), paced
 	CloseAfter bool
 	// fault before answering
-	Fault      string    // "", "close-before-response", "stall", "half-response"
-	Early      bool      // respond right after the header section, without reading the body, then close
-	NoCL       bool      // answer 200 without Content-Length (close-delimited), then close
-	Interim100 bool      // emit an unsolicited "100 Continue" before the final response
-	EarlyKeep  bool      // respond (keep-alive) right after the header section, then go on reading the request
-	Seq        *faultSeq // when set: the k-th arrival of this target (at any backend) gets faults[k]
+	Fault       string    // "", "close-before-response", "stall", "half-response"
+	Early       bool      // respond right after the header section, without reading the body, then close
+	NoCL        bool      // answer 200 without Content-Length (close-delimited), then close
+	TailPauseMs int       // hold back the last 5 bytes of Raw (a chunked terminator) for that long
+	Interim100  bool      // emit an unsolicited "100 Continue" before the final response
+	EarlyKeep   bool      // respond (keep-alive) right after the header section, then go on reading the request
+	Seq         *faultSeq // when set: the k-th arrival of this target (at any backend) gets faults[k]
 }
 
 type faultSeq struct {
@@ -215,7 +216,16 @@ func (w *world) handler(name string) func(bc *sys.BackendConn) {
 							time.Sleep(1500 * time.Microsecond)
 						}
 					}
+					if sc.TailPauseMs > 0 && len(rest) > 5 {
+						bc.Conn.Write(rest[:len(rest)-5])
+						time.Sleep(time.Duration(sc.TailPauseMs) * time.Millisecond)
+						rest = rest[len(rest)-5:]
+					}
 					bc.Conn.Write(rest)
+				} else if sc.TailPauseMs > 0 && len(sc.Raw) > 5 {
+					bc.Conn.Write(sc.Raw[:len(sc.Raw)-5])
+					time.Sleep(time.Duration(sc.TailPauseMs) * time.Millisecond)
+					bc.Conn.Write(sc.Raw[len(sc.Raw)-5:])
 				} else {
 					bc.Conn.Write(sc.Raw)
 				}
